@@ -161,6 +161,8 @@ def run(prog, rep, tier):
             if kind == 'call' and obj.cmethod == 'get_mut' and 'HashMap' in obj.cdef:
                 gm.append((b3, obj))
                 return True
+            if kind == 'assign' and obj.kind == 'assign' and obj.rv is not None and obj.rv.r == 'aggregate' and obj.rv.j.get('variant') == 'None':
+                return True      # `None` of the "not registered" arm: carries no writer
             return False
         okw = wop.place is not None and must_derive(body, wop.place[0], is_gm) and len(gm) == 1
         msg = ''
@@ -173,7 +175,7 @@ def run(prog, rep, tier):
             is_get = lambda k, ob, b4: k == 'call' and ob.cmethod == 'get' and any(b4 == g.idx for g in gets)
             okw = okw and ko.place is not None and must_derive(body, ko.place[0], is_get)
             # and the copy sits on the Some edge of get_mut
-            okw = okw and body.dominates(b3, c.idx)
+            okw = okw and (body.dominates(b3, c.idx) or c.idx not in reachable_vs(body, 0, removed_blocks=[b3]))
         if not okw and wop.place is not None:
             okw = routed_through_and_then(prog, body, wop.place[0], gets, c)
         rep.ob('R12.2', bool(okw), 'R12.2|%s|sink-is-export-of-looked-up-name' % body.nkey, 'routed copy writes to export.get_mut(name looked up by id)' if okw else
